@@ -65,6 +65,7 @@ Mutate(f, m) ==
     [] m = "undefined_characteristic_component" -> [f EXCEPT !.characs = {IF c.name = "alive" THEN [c EXCEPT !.parts = @ \cup {"ghost"}] ELSE c : c \in @}]
     [] m = "unnested_cascade" -> [f EXCEPT !.cascade = <<{"sus", "inf"}, {"inf", "rcv"}>>]
     [] m = "unnested_cascade_later_stage" -> [f EXCEPT !.cascade = <<{"sus", "inf", "rcv"}, {"inf"}, {"rcv"}>>]     \* the last stage is inside the first but not inside the preceding one
+    [] m = "capitalised_units" -> f                           \* "Number", "Rate": the standard units are not case sensitive
     [] m = "characteristic_on_unlisted_page" -> f            \* a databook page used only by a characteristic and not declared on the optional pages sheet
     [] m = "delete_transitions_sheet" -> [f EXCEPT !.sheets = @ \ {"transitions"}, !.trans = {}]
     [] m = "delete_parameters_sheet" -> [f EXCEPT !.sheets = @ \ {"parameters"}]
@@ -73,7 +74,7 @@ Mutate(f, m) ==
     [] m = "blank_optional_column" -> f                       \* an optional column that is present but empty changes nothing
     [] m = "delete_optional_sheet" -> [f EXCEPT !.sheets = @ \ {"databook pages"}]
     [] m \in {"databook_delete_table", "databook_unit_mismatch", "databook_blank_required_values", "databook_unknown_population", "databook_delete_state_sheet"} -> [f EXCEPT !.datadefects = @ \cup {m}]
-Verdict(m) == IF m \in {"none", "add_output_parameter", "blank_optional_column", "delete_optional_sheet", "delete_transitions_sheet", "characteristic_on_unlisted_page"} THEN "accept" ELSE "reject"
+Verdict(m) == IF m \in {"none", "add_output_parameter", "blank_optional_column", "delete_optional_sheet", "delete_transitions_sheet", "characteristic_on_unlisted_page", "capitalised_units"} THEN "accept" ELSE "reject"
 
 Init == bi \in 1..Len(Bases) /\ mut = "" /\ obs = ""
 Pick == /\ mut = ""
